@@ -32,6 +32,7 @@ import (
 	"os/exec"
 	"regexp"
 	"runtime"
+	"sort"
 	"strings"
 	"sync"
 	"sync/atomic"
@@ -50,14 +51,14 @@ import (
 )
 
 type c08Case struct {
-	Fam    string `json:"fam"`              // id, trunc, subst, del, dup, ins, swap, append, splice, cross, inner, short, seed
-	Blk    int    `json:"blk"`              // index of the block whose encoding is mutated
-	Pos    int    `json:"pos,omitempty"`    // byte position
-	Val    int    `json:"val,omitempty"`    // byte value (subst, ins, append) / short string value
-	Donor  int    `json:"donor,omitempty"`  // splice/cross: other block
-	Parts  int    `json:"parts,omitempty"`  // cross: bit 0 patch txs, 1 normal txs, 2 votes, 3 BTP digest; inner: 4 votes, 8 digest, 16+i tx i
-	Len    int    `json:"len,omitempty"`    // short: length
-	Reader string `json:"reader"`           // seek (bytes.Reader) | stream (non-seekable, one byte at a time)
+	Fam    string `json:"fam"`             // id, trunc, subst, del, dup, ins, swap, append, splice, cross, inner, short, seed
+	Blk    int    `json:"blk"`             // index of the block whose encoding is mutated
+	Pos    int    `json:"pos,omitempty"`   // byte position
+	Val    int    `json:"val,omitempty"`   // byte value (subst, ins, append) / short string value
+	Donor  int    `json:"donor,omitempty"` // splice/cross: other block
+	Parts  int    `json:"parts,omitempty"` // cross: bit 0 patch txs, 1 normal txs, 2 votes, 3 BTP digest; inner: 4 votes, 8 digest, 16+i tx i
+	Len    int    `json:"len,omitempty"`   // short: length
+	Reader string `json:"reader"`          // seek (bytes.Reader) | stream (non-seekable, one byte at a time)
 }
 
 func (c c08Case) key() string {
@@ -231,6 +232,9 @@ func c08NewWorld(nBlocks int) (*c08World, error) {
 		bc.Dispose()
 		last, err = w.nd.BM.GetLastBlock()
 		if err != nil {
+			return nil, err
+		}
+		if err := blkfx.WaitTxLocators(w.nd.Chain.Database(), c08TxIDs(last.NormalTransactions())); err != nil {
 			return nil, err
 		}
 		if len(c08TxIDs(last.NormalTransactions())) != len(txs) {
@@ -894,9 +898,6 @@ func (w *c08World) check(r *ev.Run, c c08Case, st *c08Stats, cur *atomic.Pointer
 		if c.Fam != "id" {
 			if v.sameAs >= 0 {
 				st.sameID[c.Fam]++
-				if os.Getenv("C08_DEBUG_SAMEID") != "" && c.Fam == "subst" {
-					fmt.Printf("SAMEID blk=%d pos=%d hdr=%d old=%02x new=%02x\n", c.Blk, c.Pos, w.blocks[c.Blk].hdrLen, w.blocks[c.Blk].enc[c.Pos], c.Val)
-				}
 			} else {
 				st.otherID[c.Fam]++
 			}
@@ -1140,7 +1141,27 @@ func TestVerifC08(t *testing.T) {
 	r.Set("runaway_canaries_in_child_process", canaryRuns)
 	r.Set("runaway_confirmed", defect)
 	r.Set("distinct_rejection_messages", len(total.errs))
-	r.Set("rejection_messages", total.errs)
+	{
+		// the 40 most frequent rejection messages (normalised), the rest summed up
+		type kv struct {
+			k string
+			v int64
+		}
+		var l []kv
+		for k, v := range total.errs {
+			l = append(l, kv{k, v})
+		}
+		sort.Slice(l, func(i, j int) bool { return l[i].v > l[j].v || l[i].v == l[j].v && l[i].k < l[j].k })
+		top := map[string]int64{}
+		for i, e := range l {
+			if i < 40 {
+				top[e.k] = e.v
+			} else {
+				top["(other messages)"] += e.v
+			}
+		}
+		r.Set("rejection_messages_top40", top)
+	}
 	r.Set("workers", workers)
 	if len(encs) > 3 {
 		r.Sample(map[string]interface{}{"case": c08Case{Fam: "id", Blk: 2, Reader: "seek"}, "input": encs[2], "oracle": "decodes to block 2, re-marshals to the same bytes"})
